@@ -21,7 +21,10 @@ ExtPool == <<E("generation", "0"), E("network-cost", "10"), E("ufrag", "aB+/"), 
              E("cur", "<euro>"), E("raw", "<ff>"),
              \* values and keys that END in a byte sequence Unicode classes as white space but the grammar does not (only SP separates
              \* tokens): no-break space U+00A0, horizontal tab, next line U+0085 - as the last token of the line they must survive
-             E("tail", "x<nbsp>"), E("tab", "y<ht>"), E("kend<nel>", "")>>
+             E("tail", "x<nbsp>"), E("tab", "y<ht>"), E("kend<nel>", ""),
+             \* names that are "tcptype" only when case is ignored: extension names are case-sensitive, these are ordinary extensions
+             \* (with a value that is a TCP type, and with one that is not)
+             E("TCPType", "passive"), E("TcpType", "v1")>>
 \* lists of length <= n; two-element lists (distinct keys) over the first pp pool entries
 ExtLists(n, pp) == {<<>>} \cup {<<ExtPool[i]>> : i \in 1..Len(ExtPool)}
                    \cup (IF n >= 2 THEN {<<ExtPool[i], ExtPool[j]>> : i, j \in 1..pp} \ {<<ExtPool[i], ExtPool[i]>> : i \in 1..pp} ELSE {})
